@@ -309,6 +309,17 @@ def main():
     )
     if extra_ev:
         ev["coverage"]["kani"] = extra_ev.get("coverage", {})
+        if agg["paths"] == 0:
+            # Kani-only property: nothing came from Engine S
+            ev["coverage"]["states"] = 0
+            ev["coverage"]["transitions"] = 0
+            ev["coverage"]["evaluations"] = max(extra_ev.get("obligations", 0), 1)
+            ev["coverage"]["distinct_nontrivial"] = extra_ev.get("states", 0)
+            ev["coverage"]["engine"] = extra_ev.get("coverage", {}).get("engine", "kani")
+            ev["coverage"]["rule"] = extra_ev.get("coverage", {}).get("rule", ev["coverage"]["rule"])
+            ev["coverage"]["exhaustive"] = not extra_ev.get("violations") and not extra_ev.get("inconclusive")
+        for h in extra_ev.get("coverage", {}).get("harnesses", [])[:6]:
+            ev["coverage"]["samples"].append(dict(kani_harness=h.get("name"), builder=h.get("builder"), documented_ranges=h.get("documented_ranges"), verdict=h.get("verdict"), checks=h.get("checks"), covers=h.get("covers")))
         ev["coverage"]["states"] += extra_ev.get("states", 0)
         ev["coverage"]["transitions"] += extra_ev.get("transitions", 0)
         ev["coverage"]["obligations"] += extra_ev.get("obligations", 0)
